@@ -13,8 +13,10 @@ namespace Spec
 
 abbrev Mono := List Nat
 
-def trimZeros (e : Mono) : Mono :=
-  (e.reverse.dropWhile (· == 0)).reverse
+/-- drop trailing zeros (canonical exponent vectors) -/
+def trimZeros : Mono → Mono
+  | [] => []
+  | a :: r => if trimZeros r = [] ∧ a = 0 then [] else a :: trimZeros r
 
 def expGet (e : Mono) (j : Nat) : Nat := e.getD j 0
 
